@@ -216,7 +216,7 @@ Section MruBridge.
     { clear. induction l as [|[[z k] v] r IH]; intros s n; simpl; auto.
       callee (g_do_insert_update_ok s k v a). unfold bind at 1 2 3.
       destruct (g_do_insert_update s k v a) as [[s1 b]|], (ll_ins true s k v a) as [[s2 b2]|]; intros P; try contradiction; auto.
-      inversion P; subst. destruct b2; cbn [bind]; apply IH. }
+      inversion P; subst. destruct b2; cbn [bind]; rewrite ?Nat.add_1_r, ?Nat.add_0_r; apply IH. }
     specialize (G l s 0). revert G.
     destruct (foldM _ _ _) as [[s' n']|]; cbn [bind]; auto.
   Qed.
